@@ -832,7 +832,8 @@ func checkEnergy(r *ev.Run, n, s c3) {
 func lightStage(r *ev.Run, m int) {
 	em := render3d.NewColorRGB(1, 2, 0.5)
 	// sphere light: real generator (NormFloat64 is a rejection sampler; its uniformity is not decided here)
-	for _, sp := range []*model3d.Sphere{{Center: model3d.XYZ(1, -2, 0.5), Radius: 0.3}, {Radius: 4}} {
+	for _, sp := range []*model3d.Sphere{{Center: model3d.XYZ(1, -2, 0.5), Radius: 0.3}, {Radius: 4},
+		{Center: model3d.XYZ(0.5, 0.25, -0.125), Radius: 1.0 / 4096}, {Center: model3d.XYZ(4096, -8192, 2048), Radius: 1024}} {
 		l := render3d.NewSphereAreaLight(sp, em)
 		gen := rand.New(rand.NewSource(1))
 		for i := 0; i < 4096; i++ {
@@ -852,6 +853,9 @@ func lightStage(r *ev.Run, m int) {
 		{P1: model3d.XYZ(0, 0, 0), P2: model3d.XYZ(0, 0, 2), Radius: 1},
 		{P1: model3d.XYZ(1, -2, 0.5), P2: model3d.XYZ(2, 0, 1.5), Radius: 3},
 		{P1: model3d.XYZ(0, 1, 0), P2: model3d.XYZ(0.3, 1.1, -4), Radius: 0.25},
+		// the second one 4096 times smaller and 1024 times larger (exact scalings)
+		{P1: model3d.XYZ(1, -2, 0.5).Scale(1.0 / 4096), P2: model3d.XYZ(2, 0, 1.5).Scale(1.0 / 4096), Radius: 3.0 / 4096},
+		{P1: model3d.XYZ(1, -2, 0.5).Scale(1024), P2: model3d.XYZ(2, 0, 1.5).Scale(1024), Radius: 3 * 1024},
 	} {
 		l := render3d.NewCylinderAreaLight(cy, em)
 		c := rcase{What: "CylinderAreaLight", Params: fmt.Sprintf("%v-%v r=%g", cy.P1, cy.P2, cy.Radius)}
@@ -880,7 +884,7 @@ func lightStage(r *ev.Run, m int) {
 				part = 0
 			case math.Abs(z-h) < 1e-9*h && rad <= cy.Radius*(1+1e-9) && nrm.Dist(axis) < 1e-9:
 				part = 1
-			case math.Abs(rad-cy.Radius) < 1e-9*cy.Radius && z >= -1e-9 && z <= h*(1+1e-9) && nrm.Dist(p.Sub(cy.P1).Sub(axis.Scale(z)).Normalize()) < 1e-9:
+			case math.Abs(rad-cy.Radius) < 1e-9*cy.Radius && z >= -1e-9*h && z <= h*(1+1e-9) && nrm.Dist(p.Sub(cy.P1).Sub(axis.Scale(z)).Normalize()) < 1e-9:
 				part = 2
 			}
 			if part < 0 {
